@@ -395,13 +395,40 @@ Section Logical.
         unfold ev, Jf, Mi in *. simpl in *. rewrite H0, H1, H2, C0, C1, C2. repeat f_equal; field; exact dz.
     Qed.
 
+    (* the public helpers Covariant(M, v) = J^-T v and Contravariant(M, v) = (J / det J) v, for ANY vector v of terminal
+       expressions: they invert the two pull-back relations u^ = J^T u (H(curl)) and u^ = det J J^-1 u (H(div)) *)
+    Lemma covariant_inverts v :
+      length v = d ->
+      map evs (mat_vec (transp (jac d m)) (mat_vec (transp (jinv d m)) v)) = map evs v.
+    Proof.
+      dimcase; intros Hv.
+      - destruct v as [|v0 [|? ?]]; try discriminate. simpl. unfold ev in *. simpl in *. f_equal. field. exact dz.
+      - destruct v as [|v0 [|v1 [|? ?]]]; try discriminate. simpl. unfold ev in *. simpl in *.
+        repeat f_equal; field; exact dz.
+      - destruct v as [|v0 [|v1 [|v2 [|? ?]]]]; try discriminate. simpl. unfold ev in *. simpl in *.
+        repeat f_equal; field; exact dz.
+    Qed.
+
+    Lemma contravariant_inverts v :
+      length v = d ->
+      map evs (mat_vec (adj_t d m) (mat_vec (map (map (fun c => TDiv c (det_t d m))) (jac d m)) v)) = map evs v.
+    Proof.
+      dimcase; intros Hv.
+      - destruct v as [|v0 [|? ?]]; try discriminate. simpl. unfold ev in *. simpl in *. f_equal. field. exact dz.
+      - destruct v as [|v0 [|v1 [|? ?]]]; try discriminate. simpl. unfold ev in *. simpl in *.
+        repeat f_equal; field; exact dz.
+      - destruct v as [|v0 [|v1 [|v2 [|? ?]]]]; try discriminate. simpl. unfold ev in *. simpl in *.
+        repeat f_equal; field; exact dz.
+    Qed.
+
     (* ---------------------------------------------------------------- the physical side *)
     Variable pf : string -> nat -> F S.     (* physical function f, component c (0 = scalar, i+1 = component i),
                                                as an element: "u o F" *)
     Variable kinds : string -> kind.
+    Variable sd : side.                     (* the side the functions are restricted to (SNone: no interface) *)
     Definition detv : F S := evs (det_t d m).
     Definition adjv (i j : nat) : F S := evs (nth j (nth i (adj_t d m) []) (TZ 0)).
-    Definition uh (f : string) (c : nat) : F S := fld S f c SNone.        (* the logical unknown *)
+    Definition uh (f : string) (c : nat) : F S := fld S f c sd.           (* the logical unknown (of side sd) *)
 
     (* the logical unknown is the pull-back of the physical function:
        H1 / undefined: u^ = u o F;  L2: u^ = det J (u o F);  H(curl): u^ = J^T (u o F);
@@ -534,7 +561,7 @@ Section Logical.
       | Mat A => Forall (Forall (dfd S)) A
       end.
     Definition ldf1 (e : lx) : Prop :=
-      (forall t, logical d m e = Some t -> tdfd t) /\ (forall pa, phys_sc d e = Some pa -> dfd S pa).
+      (forall t, logical d m sd e = Some t -> tdfd t) /\ (forall pa, phys_sc d e = Some pa -> dfd S pa).
     Definition ldf := allsub ldf1.
 
     (* ---------------------------------------------------------------- functions: the pull-back formulas *)
@@ -566,7 +593,7 @@ Section Logical.
       try redR R.
 
     Lemma pullback_vec_sound f t :
-      pullback d m f (kinds f) true = Some t ->
+      pullback d m sd f (kinds f) true = Some t ->
       tev t = FVec (map (fun c => pf f (Datatypes.S c)) (seq0 d)).
     Proof.
       dimcase; getrel f Ed; intros H; vm_compute in H; inversion H; subst t; clear H;
@@ -575,7 +602,7 @@ Section Logical.
 
     Lemma pullback_sc_sound f t :
       kinds f = KH1 \/ kinds f = KUndef \/ kinds f = KL2 ->
-      pullback d m f (kinds f) false = Some t -> tev t = FSc (pf f 0%nat).
+      pullback d m sd f (kinds f) false = Some t -> tev t = FSc (pf f 0%nat).
     Proof.
       intros Hk. dimcase; getrel f Ed; try (destruct Hk as [Hk|[Hk|Hk]]; discriminate);
         intros H; vm_compute in H; inversion H; subst t; clear H;
@@ -709,7 +736,7 @@ Section Logical.
     Proof.
       induction t; simpl; try reflexivity;
         try (unfold ev in *; simpl; now rewrite ?IHt, ?IHt1, ?IHt2).
-      destruct a as [lg i|n|lg f c sd al|m' i al|sd i]; try reflexivity.
+      destruct a as [lg i|n|lg f c sd0 al|m' i al|sd0 i]; try reflexivity.
       destruct lg; try reflexivity. destruct (Nat.ltb i d) eqn:Ei; try reflexivity.
       apply Nat.ltb_lt in Ei. change (Mi i = crd S false i). symmetry. now apply Hcrd.
     Qed.
@@ -781,11 +808,11 @@ Section Logical.
 
     (* ---------------------------------------------------------------- the arms dx/dy/dz and grad *)
     Lemma LD_sound i a t :
-      (forall ta, logical d m a = Some ta -> pden a = Some (tev ta)) -> ldf1 a ->
-      logical d m (LD i a) = Some t -> pden (LD i a) = Some (tev t).
+      (forall ta, logical d m sd a = Some ta -> pden a = Some (tev ta)) -> ldf1 a ->
+      logical d m sd (LD i a) = Some t -> pden (LD i a) = Some (tev t).
     Proof.
       intros IH Hdf H. cbn [logical] in H. destruct (negb _ && _); [discriminate|].
-      destruct (logical d m a) as [[s|?|?]|] eqn:Ea; try discriminate.
+      destruct (logical d m sd a) as [[s|?|?]|] eqn:Ea; try discriminate.
       specialize (IH _ eq_refl). pose proof (proj1 Hdf _ Ea) as Hs. simpl in Hs.
       destruct (lgrad d (Sc s)) as [[?|g|?]|] eqn:Eg; try discriminate.
       destruct (lgrad_sc_sound _ _ Eg Hs) as (gl & Eq & Hev & _). inversion Eq; subst gl.
@@ -796,14 +823,14 @@ Section Logical.
     Qed.
 
     Lemma LGrad_sound a t :
-      (forall ta, logical d m a = Some ta -> pden a = Some (tev ta)) -> ldf1 a ->
-      logical d m (LGrad a) = Some t -> pden (LGrad a) = Some (tev t).
+      (forall ta, logical d m sd a = Some ta -> pden a = Some (tev ta)) -> ldf1 a ->
+      logical d m sd (LGrad a) = Some t -> pden (LGrad a) = Some (tev t).
     Proof.
       intros IH Hdf H. cbn [logical] in H. destruct (negb _ && _).
       { destruct (phys_sc d a) as [pa|] eqn:Ep; [|discriminate].
         match type of H with option_map _ ?g = _ => destruct g as [l|] eqn:El; [|discriminate] end.
         inversion H. eapply phys_grad_sound; eauto. now apply (proj2 Hdf). }
-      destruct (logical d m a) as [ta|] eqn:Ea; try discriminate.
+      destruct (logical d m sd a) as [ta|] eqn:Ea; try discriminate.
       specialize (IH _ eq_refl). pose proof (proj1 Hdf _ Ea) as Hs.
       destruct (lgrad d ta) as [g|] eqn:Eg; try discriminate.
       cbn [pden]. rewrite IH. destruct ta as [s|l|A].
@@ -830,7 +857,7 @@ Section Logical.
     (* curl of an H(curl) function: curl u = (1/det J) J curl^ u^  (2-D: (1/det J) curl^ u^) *)
     Lemma piola_curl_sound f t :
       kinds f = KHcurl ->
-      logical d m (LCurl (LVF f KHcurl)) = Some t -> pden (LCurl (LVF f KHcurl)) = Some (tev t).
+      logical d m sd (LCurl (LVF f KHcurl)) = Some t -> pden (LCurl (LVF f KHcurl)) = Some (tev t).
     Proof.
       intros Hk. dimcase; getrel f Ed; try discriminate; intros H; vm_compute in H; try discriminate;
         inversion H; subst t; clear H; cbn [pden]; unfold fcurl; rewrite !Ed; simpl.
@@ -844,7 +871,7 @@ Section Logical.
     (* div of an H(div) function: div u = (1/det J) div^ u^ *)
     Lemma piola_div_sound f t :
       kinds f = KHdiv ->
-      logical d m (LDiv (LVF f KHdiv)) = Some t -> pden (LDiv (LVF f KHdiv)) = Some (tev t).
+      logical d m sd (LDiv (LVF f KHdiv)) = Some t -> pden (LDiv (LVF f KHdiv)) = Some (tev t).
     Proof.
       intros Hk. dimcase; getrel f Ed; try discriminate; intros H; vm_compute in H; try discriminate;
         inversion H; subst t; clear H; cbn [pden]; unfold sumn; rewrite !Ed; simpl.
@@ -860,7 +887,7 @@ Section Logical.
     (* div of an H1 / undefined vector function: the trace form tr(J^-T grad^ u^) *)
     Lemma div_plain_sound f k t :
       k = kinds f -> k = KH1 \/ k = KUndef ->
-      logical d m (LDiv (LVF f k)) = Some t -> pden (LDiv (LVF f k)) = Some (tev t).
+      logical d m sd (LDiv (LVF f k)) = Some t -> pden (LDiv (LVF f k)) = Some (tev t).
     Proof.
       intros -> Hk. dimcase; getrel f Ed; try (destruct Hk; discriminate); intros H; vm_compute in H;
         inversion H; subst t; clear H; cbn [pden]; unfold sumn; rewrite !Ed; simpl.
@@ -900,14 +927,14 @@ Section Logical.
     Qed.
 
     Lemma LLaplace_sound a t :
-      (forall ta, logical d m a = Some ta -> pden a = Some (tev ta)) -> ldf1 a ->
-      logical d m (LLaplace a) = Some t -> pden (LLaplace a) = Some (tev t).
+      (forall ta, logical d m sd a = Some ta -> pden a = Some (tev ta)) -> ldf1 a ->
+      logical d m sd (LLaplace a) = Some t -> pden (LLaplace a) = Some (tev t).
     Proof.
       intros IH Hdf H. cbn [logical] in H. destruct (negb _ && _).
       { destruct (phys_sc d a) as [pa|] eqn:Ep; [|discriminate].
         match type of H with option_map _ ?g = _ => destruct g as [l|] eqn:El; [|discriminate] end.
         inversion H. eapply phys_laplace_sound; eauto. now apply (proj2 Hdf). }
-      destruct (logical d m a) as [[s|?|?]|] eqn:Ea; try discriminate.
+      destruct (logical d m sd a) as [[s|?|?]|] eqn:Ea; try discriminate.
       specialize (IH _ eq_refl). pose proof (proj1 Hdf _ Ea) as Hs. simpl in Hs.
       destruct (lgrad d (Sc s)) as [g|] eqn:Eg; try discriminate.
       destruct (lgrad_sc_sound _ _ Eg Hs) as (gl & Eq & Hev & Hgd). subst g.
@@ -934,13 +961,13 @@ Section Logical.
 
     (* ---------------------------------------------------------------- arithmetic arms *)
     Lemma add_go_sound l :
-      Forall (fun x => forall t, logical d m x = Some t -> pden x = Some (tev t)) l ->
+      Forall (fun x => forall t, logical d m sd x = Some t -> pden x = Some (tev t)) l ->
       forall t,
       (fix go (l : list lx) : option tensor :=
          match l with
          | [] => None
-         | [x] => logical d m x
-         | x :: r => match logical d m x, go r with Some a, Some b => t_add a b | _, _ => None end
+         | [x] => logical d m sd x
+         | x :: r => match logical d m sd x, go r with Some a, Some b => t_add a b | _, _ => None end
          end) l = Some t ->
       (fix go (l : list lx) : option tensF :=
          match l with
@@ -952,20 +979,20 @@ Section Logical.
       induction 1 as [|x r Hx Hr IH]; intros t H; [discriminate|].
       destruct r as [|y r'].
       - now apply Hx.
-      - destruct (logical d m x) as [a|] eqn:Ea; [|discriminate].
+      - destruct (logical d m sd x) as [a|] eqn:Ea; [|discriminate].
         match type of H with match ?g with _ => _ end = _ => destruct g as [b|] eqn:Eb; [|discriminate] end.
         pose proof (IH b eq_refl) as Eb'. simpl in Eb'. simpl. rewrite (Hx _ eq_refl). simpl in Eb' |- *. rewrite Eb'.
         now apply tev_add.
     Qed.
 
     Lemma mul_go_sound l :
-      Forall (fun x => forall t, logical d m x = Some t -> pden x = Some (tev t)) l ->
+      Forall (fun x => forall t, logical d m sd x = Some t -> pden x = Some (tev t)) l ->
       forall t,
       (fix go (l : list lx) : option tensor :=
          match l with
          | [] => None
-         | [x] => logical d m x
-         | x :: r => match logical d m x, go r with Some a, Some b => t_mul a b | _, _ => None end
+         | [x] => logical d m sd x
+         | x :: r => match logical d m sd x, go r with Some a, Some b => t_mul a b | _, _ => None end
          end) l = Some t ->
       (fix go (l : list lx) : option tensF :=
          match l with
@@ -977,19 +1004,19 @@ Section Logical.
       induction 1 as [|x r Hx Hr IH]; intros t H; [discriminate|].
       destruct r as [|y r'].
       - now apply Hx.
-      - destruct (logical d m x) as [a|] eqn:Ea; [|discriminate].
+      - destruct (logical d m sd x) as [a|] eqn:Ea; [|discriminate].
         match type of H with match ?g with _ => _ end = _ => destruct g as [b|] eqn:Eb; [|discriminate] end.
         pose proof (IH b eq_refl) as Eb'. simpl in Eb'. simpl. rewrite (Hx _ eq_refl). simpl in Eb' |- *. rewrite Eb'.
         now apply tev_mul.
     Qed.
 
     Lemma row_go_sound row :
-      Forall (fun x => forall t, logical d m x = Some t -> pden x = Some (tev t)) row ->
+      Forall (fun x => forall t, logical d m sd x = Some t -> pden x = Some (tev t)) row ->
       forall ts,
       (fix goc (row : list lx) : option (list texpr) :=
          match row with
          | [] => Some []
-         | x :: r => match logical d m x, goc r with
+         | x :: r => match logical d m sd x, goc r with
                      | Some (Sc t), Some ts => Some (t :: ts)
                      | _, _ => None
                      end
@@ -1005,7 +1032,7 @@ Section Logical.
     Proof.
       induction 1 as [|x r Hx Hr IH]; intros ts H.
       - inversion H. reflexivity.
-      - destruct (logical d m x) as [[tx|?|?]|] eqn:Ea; try discriminate.
+      - destruct (logical d m sd x) as [[tx|?|?]|] eqn:Ea; try discriminate.
         match type of H with match ?g with _ => _ end = _ => destruct g as [ts'|] eqn:Eb; [|discriminate] end.
         inversion H. rewrite (Hx _ eq_refl). rewrite (IH _ eq_refl). reflexivity.
     Qed.
@@ -1015,7 +1042,7 @@ Section Logical.
 
     (* ---------------------------------------------------------------- the main theorem *)
     Theorem logical_sound e :
-      wt e -> ldf e -> forall t, logical d m e = Some t -> pden e = Some (tev t).
+      wt e -> ldf e -> forall t, logical d m sd e = Some t -> pden e = Some (tev t).
     Proof.
       unfold wt, ldf.
       induction e as [p q|n|i|f k|f k|f k i|l IHl|l IHl|b x IHb IHx|f a IHa|a IHa|a IHa|a IHa|a IHa
@@ -1030,7 +1057,7 @@ Section Logical.
       - (* vector function *) simpl in H. destruct Hw as [Hk _]. simpl in Hk. subst k. simpl.
         f_equal. symmetry. now apply pullback_vec_sound.
       - (* component *) simpl in H. destruct Hw as [Hk _]. simpl in Hk. subst k.
-        destruct (pullback d m f (kinds f) true) as [[?|vl|?]|] eqn:Ep; try discriminate.
+        destruct (pullback d m sd f (kinds f) true) as [[?|vl|?]|] eqn:Ep; try discriminate.
         pose proof (pullback_vec_sound _ _ Ep) as Hv. simpl in Hv. inversion Hv as [Hvl].
         destruct (nth_error vl i) as [x|] eqn:En; [|discriminate]. inversion H.
         destruct (nth_error_seq0 evs (fun c => pf f (Datatypes.S c)) _ _ _ Hvl En) as [Hx Hi].
@@ -1045,13 +1072,13 @@ Section Logical.
         rewrite Forall_forall in *. intros x Hx t' Ht'. apply IHl; auto.
       - (* Pow *) cbn [logical] in H. destruct (negb _ && _); [discriminate|].
         simpl in Hw, Hl. destruct Hw as [_ [Hwb Hwx]]. destruct Hl as [_ [Hlb Hlx]].
-        destruct (logical d m b) as [[tb|?|?]|] eqn:Eb; try discriminate.
-        destruct (logical d m x) as [[tx|?|?]|] eqn:Ex; try discriminate.
+        destruct (logical d m sd b) as [[tb|?|?]|] eqn:Eb; try discriminate.
+        destruct (logical d m sd x) as [[tx|?|?]|] eqn:Ex; try discriminate.
         inversion H. cbn [pden]. rewrite (IHb Hwb Hlb _ eq_refl), (IHx Hwx Hlx _ eq_refl). simpl.
         now rewrite ev_tpow.
       - (* Fn *) cbn [logical] in H. destruct (negb _ && _); [discriminate|].
         simpl in Hw, Hl. destruct Hw as [_ Hwa]. destruct Hl as [_ Hla].
-        destruct (logical d m a) as [[ta|?|?]|] eqn:Ea; try discriminate.
+        destruct (logical d m sd a) as [[ta|?|?]|] eqn:Ea; try discriminate.
         inversion H. cbn [pden]. rewrite (IHa Hwa Hla _ eq_refl). reflexivity.
       - (* Grad *) simpl in Hw, Hl. destruct Hw as [_ Hwa]. destruct Hl as [_ Hla].
         apply LGrad_sound; auto. now apply (allsub_here _ _ Hla).
@@ -1074,16 +1101,16 @@ Section Logical.
         apply LLaplace_sound; auto. now apply (allsub_here _ _ Hla).
       - (* Dot *) cbn [logical] in H. destruct (negb _ && _); [discriminate|].
         simpl in Hw, Hl. destruct Hw as [_ [Hwa Hwb]]. destruct Hl as [_ [Hla Hlb]].
-        destruct (logical d m a) as [[?|u|?]|] eqn:Ea; try discriminate.
-        destruct (logical d m b) as [[?|v|?]|] eqn:Eb; try discriminate.
+        destruct (logical d m sd a) as [[?|u|?]|] eqn:Ea; try discriminate.
+        destruct (logical d m sd b) as [[?|v|?]|] eqn:Eb; try discriminate.
         destruct (Nat.eqb (length u) (length v)) eqn:El; [|discriminate]. inversion H.
         cbn [pden]. rewrite (IHa Hwa Hla _ eq_refl), (IHb Hwb Hlb _ eq_refl). simpl. unfold fdot.
         rewrite !map_length, El. unfold dot_v. simpl. f_equal. f_equal. symmetry. apply ev_dotl.
       - (* Inner *) cbn [logical] in H. destruct (negb _ && _); [discriminate|].
         simpl in Hw, Hl. destruct Hw as [_ [Hwa Hwb]]. destruct Hl as [_ [Hla Hlb]].
         destruct (Nat.eqb d 1); [discriminate|].
-        destruct (logical d m a) as [[?|u|A]|] eqn:Ea; try discriminate;
-          destruct (logical d m b) as [[?|v|B]|] eqn:Eb; try discriminate.
+        destruct (logical d m sd a) as [[?|u|A]|] eqn:Ea; try discriminate;
+          destruct (logical d m sd b) as [[?|v|B]|] eqn:Eb; try discriminate.
         + destruct (Nat.eqb (length u) (length v)) eqn:El; [|discriminate]. inversion H.
           cbn [pden]. rewrite (IHa Hwa Hla _ eq_refl), (IHb Hwb Hlb _ eq_refl). simpl. unfold fdot.
           rewrite !map_length, El. unfold dot_v. simpl. f_equal. f_equal. symmetry. apply ev_dotl.
@@ -1091,8 +1118,8 @@ Section Logical.
           unfold inner_m. simpl. f_equal. f_equal. rewrite <- !concat_map. symmetry. apply ev_dotl.
       - (* Cross *) cbn [logical] in H. destruct (negb _ && _); [discriminate|].
         simpl in Hw, Hl. destruct Hw as [_ [Hwa Hwb]]. destruct Hl as [_ [Hla Hlb]].
-        destruct (logical d m a) as [[?|u|?]|] eqn:Ea; try discriminate.
-        destruct (logical d m b) as [[?|v|?]|] eqn:Eb; try discriminate.
+        destruct (logical d m sd a) as [[?|u|?]|] eqn:Ea; try discriminate.
+        destruct (logical d m sd b) as [[?|v|?]|] eqn:Eb; try discriminate.
         cbn [pden]. rewrite (IHa Hwa Hla _ eq_refl), (IHb Hwb Hlb _ eq_refl). simpl.
         unfold cross_v in H. unfold fcross.
         pose proof ev_nth as EN.
@@ -1107,7 +1134,7 @@ Section Logical.
         match type of H with option_map Mat ?g = _ => destruct g as [A|] eqn:EA; [|discriminate] end.
         inversion H. subst t. clear H.
         assert (G : forall rows, Forall (Forall (fun x => allsub wt1 x -> allsub ldf1 x ->
-                                   forall t, logical d m x = Some t -> pden x = Some (tev t))) rows ->
+                                   forall t, logical d m sd x = Some t -> pden x = Some (tev t))) rows ->
                       Forall (Forall (allsub wt1)) rows -> Forall (Forall (allsub ldf1)) rows ->
                       forall A,
                       (fix gor (rows : list (list lx)) : option (list (list texpr)) :=
@@ -1117,7 +1144,7 @@ Section Logical.
                              match (fix goc (row : list lx) : option (list texpr) :=
                                       match row with
                                       | [] => Some []
-                                      | x :: r => match logical d m x, goc r with
+                                      | x :: r => match logical d m sd x, goc r with
                                                   | Some (Sc t), Some ts => Some (t :: ts)
                                                   | _, _ => None
                                                   end
@@ -1168,7 +1195,7 @@ Section Logical.
 
     Theorem dx_any_order js a t x :
       wt (LDs js a) -> ldf (LDs js a) -> Forall (fun i => i < d) js -> pden a = Some (FSc x) ->
-      logical d m (LDs js a) = Some t -> tev t = FSc (Dps js x).
+      logical d m sd (LDs js a) = Some t -> tev t = FSc (Dps js x).
     Proof.
       intros Hw Hl Hj Ha H. pose proof (logical_sound _ Hw Hl _ H) as E.
       rewrite (pden_LDs js a x Hj Ha) in E. now inversion E.
@@ -1196,7 +1223,12 @@ Definition chain_rule (S : dfield) (m : string) (d : nat) : Prop :=
 Definition mapped (S : dfield) (m : string) (d : nat) : Prop :=
   (d = 1 \/ d = 2 \/ d = 3) /\ chain_rule S m d /\ ev S (det_t d m) <> f0 S.
 
-(* the physical coordinates are the mapping components, and every logical unknown is the pull-back (by the rule of
-   its space kind) of the physical function of the same name *)
+(* the physical coordinates are the mapping components, and every logical unknown OF SIDE sd (the atoms
+   AFld true f c sd al; sd = SNone away from interfaces) is the pull-back (by the rule of its space kind, with the
+   mapping m) of the physical function of the same name *)
+Definition pulled_back_side (S : dfield) (m : string) (d : nat) (sd : side) (pf : string -> nat -> F S)
+           (kinds : string -> kind) : Prop :=
+  (forall f, rel S m d pf kinds sd f) /\ (forall i, i < d -> crd S false i = Mi S m i).
+
 Definition pulled_back (S : dfield) (m : string) (d : nat) (pf : string -> nat -> F S) (kinds : string -> kind) : Prop :=
-  (forall f, rel S m d pf kinds f) /\ (forall i, i < d -> crd S false i = Mi S m i).
+  pulled_back_side S m d SNone pf kinds.
